@@ -2,7 +2,9 @@ import PysamlModel.Props.C20
 #print axioms C20.C20_signature_exact
 #print axioms C20.C20_own_key
 #print axioms C20.C20_no_other_thread
+#print axioms C20.C20_verify_verdict
 #print axioms C20.C20_never_crashes
-#print axioms C20.C20_spec_iff
+#print axioms C20.C20_spec_signed
+#print axioms C20.C20_spec_verified
 #print axioms C20.C20_model_meets_spec
 #print axioms C20.C20_shared_design_counterexample
